@@ -165,7 +165,7 @@ def p_validate(prog, case, budget):
 
 def sym_hash(M, n):
     bs = [z3.BitVec(f'h{i}', 8) for i in range(n)]
-    for b in bs: M.assume(z3.And(z3.UGE(b, 33), z3.ULT(b, 127)))
+    for b in bs: M.assume(z3.And(z3.UGE(b, 32), z3.ULT(b, 127)))          # printable, blanks included (a hash pasted with surrounding blanks is not a hash)
     return bs
 
 def ref_hash(bs):
